@@ -1041,6 +1041,7 @@ func (d *Data) addSubvolumes(layer *layerT, subvolumes *subvolumesT, batchsize i
 
 			// Create subvolumes along this row.
 			begX := minX
+			rowStart := len(subvolumes.Subvolumes) // subvolumes before this index belong to other rows
 			for {
 				if begX > maxX {
 					break
@@ -1055,18 +1056,31 @@ func (d *Data) addSubvolumes(layer *layerT, subvolumes *subvolumesT, batchsize i
 				holeBeg, holeEnd, found := findXHoles(actives, begX, endX)
 				var numActive, numTotal uint64
 				if found && merge {
-					// MinCorner stays same since we are extended in X
+					// The blocks before the hole extend the previous subvolume of this row in X
+					// if it ends right before them, else they make a subvolume of their own.
 					if holeBeg-1 >= begX {
-						lastI := len(subvolumes.Subvolumes) - 1
-						subvolume := subvolumes.Subvolumes[lastI]
 						lastCorner := dvid.ChunkPoint3d{holeBeg - 1, endY, layer.maxZ}
-						subvolume.MaxPoint = lastCorner.MinPoint(d.BlockSize).(dvid.Point3d)
-						subvolume.MaxChunk = lastCorner
 						numTotal = totalBlocks(minCorner, lastCorner)
 						numActive = findActives(actives, begX, holeBeg-1)
-						subvolume.TotalBlocks += numTotal
-						subvolume.ActiveBlocks += numActive
-						subvolumes.Subvolumes[lastI] = subvolume
+						lastI := len(subvolumes.Subvolumes) - 1
+						if lastI >= rowStart && subvolumes.Subvolumes[lastI].MaxChunk[0] == begX-1 {
+							subvolume := subvolumes.Subvolumes[lastI]
+							subvolume.MaxPoint = lastCorner.MaxPoint(d.BlockSize).(dvid.Point3d)
+							subvolume.MaxChunk = lastCorner
+							subvolume.TotalBlocks += numTotal
+							subvolume.ActiveBlocks += numActive
+							subvolumes.Subvolumes[lastI] = subvolume
+						} else {
+							subvolumes.Subvolumes = append(subvolumes.Subvolumes, subvolumeT{
+								Extents3d: dvid.Extents3d{
+									minCorner.MinPoint(d.BlockSize).(dvid.Point3d),
+									lastCorner.MaxPoint(d.BlockSize).(dvid.Point3d),
+								},
+								ChunkExtents3d: dvid.ChunkExtents3d{minCorner, lastCorner},
+								TotalBlocks:    numTotal,
+								ActiveBlocks:   numActive,
+							})
+						}
 					}
 					begX = holeEnd + 1
 				} else {
